@@ -1,5 +1,5 @@
 """C15 — every strong handle kind keeps the actor fully functional, not just reachable."""
-import core, graph, own
+import core, graph, own, loops
 from mir import Body, Origin, agg_sites
 
 EXPL = ("Ownership graph (A2) + provenance (A3). Needed set = pointee types of every Weak::upgrade in the context "
@@ -11,7 +11,8 @@ EXPL = ("Ownership graph (A2) + provenance (A3). Needed set = pointee types of e
         "R15.3: the birth site wires address and context to the same channel, id and termination future.")
 
 HANDLE_ADTS = ["addr::Addr", "addr::OwningAddr", "addr::sender::Sender", "addr::caller::Caller", "addr::weak_addr::WeakAddr", "addr::weak_sender::WeakSender", "addr::weak_caller::WeakCaller"]
-IDENTITY_SUFFIX = ("::clone_box", "::upgrade", "::downgrade", "::zip", "::clone", "::to_owned", "Try::branch", "::map", "::as_ref", "::cloned", "::unwrap_or_default", "::ok_or", "::ok_or_else")
+IDENTITY_SUFFIX = ("::clone_box", "::upgrade", "::downgrade", "::zip", "::clone", "::to_owned", "Try::branch", "::map", "::as_ref", "::cloned", "::unwrap_or_default", "::ok_or", "::ok_or_else",
+                   "StreamExt::boxed", "FutureExt::boxed")  # (`rx.boxed()`: the same stream behind a Pin<Box<dyn Stream>>)
 FIRST_ARG_ONLY = ("::ok_or", "::ok_or_else")  # the second argument is the error to report, not a source of the value
 
 
@@ -146,8 +147,8 @@ def _birth_ctor(g, t):
 
 def check_birth(ctx, fx, cfg, RULE="R15.3"):
     """the birth site wires the address and the context to the same channel halves and the same id"""
-    fc = fx.fn("environment::Environment::<A, R>::from_channel")
-    if ctx.require(fc is not None, RULE, "from_channel@" + cfg, "Environment::from_channel not found"):
+    fc = loops.env_ctors(fx)[0]
+    if ctx.require(fc is not None, RULE, "from_channel@" + cfg, "the function that builds the Environment (context + address) from a Channel was not found"):
         # crate-private constructors of the two values (`Context::new(&channel, rx)`, `ctx.address_from(tx, force_tx)`) are
         # looked at as if their struct literal were written here
         import inline
@@ -240,10 +241,15 @@ def check_cfg(ctx, fx, cfg):
     # needed set
     needed = {}
     n_sites = 0
-    for f, bi, t in graph.all_calls(fx, lambda t: (t.get("callee") or "").startswith("alloc::sync::") and (t.get("callee") or "").endswith("::upgrade")):
+    is_weak_upgrade = lambda t: (t.get("callee") or "").startswith("alloc::sync::") and (t.get("callee") or "").endswith("::upgrade")
+    # a crate-local generic newtype around `Weak<T>` (`WeakTxHandle<T: ?Sized>(Weak<T>)`): its `upgrade` is the upgrade of
+    # whatever it is instantiated with at the call site
+    import re as _re
+    generic_upgraders = {f["def"] for f, _bi, t in graph.all_calls(fx, is_weak_upgrade) if _re.match(r"alloc::sync::Weak<[A-Z]\w*[,>]", t.get("self_ty") or "") and f["kind"] in ("fn", "assoc_fn")}
+    for f, bi, t in graph.all_calls(fx, lambda t: is_weak_upgrade(t) or (t.get("callee") in generic_upgraders)):
         st = t.get("self_ty") or ""
         for tr in ("TxFn", "ForceTxFn"):
-            if "Weak<dyn channel::%s<" % tr in st:
+            if "Weak<dyn channel::%s<" % tr in st or (t.get("callee") in generic_upgraders and "<dyn channel::%s<" % tr in st):
                 needed.setdefault(tr, []).append((f["def"], t["l"]))
                 n_sites += 1
     ctx.floor("R15.1", "Weak::upgrade sites on channel halves (%s)" % cfg, n_sites, 6)
@@ -284,7 +290,7 @@ def check_cfg(ctx, fx, cfg):
             if t["k"] == "call" and t.get("callee_local") and (t.get("callee") or "").split("::")[-1] in ("new", "from_weak_tx") and any((t.get("destty") or "").startswith(h + "<") for h in HANDLE_ADTS):
                 sites.append(("call:" + t["callee"], t["l"], t["args"], t["argtys"]))
         for kind, loc, ops, tys in sites:
-            if f["def"].endswith("Environment::<A, R>::from_channel"):
+            if f["def"] == ((loops.env_ctors(fx)[0] or {}).get("def")):
                 continue  # birth site, R15.3
             bad = []
             checked = 0
